@@ -158,3 +158,9 @@ Definition v_history (n0 : option Z) (ops : list (option Z)) (os : result (list 
           (if counts_valid n0 ops
            then match os with Ok l => history_check n0 ops l | Err _ => false end
            else true).
+
+(* ---- the start values behind SmallRules.cos_table are what libm returns today: [t] = for every n of
+        the table the (argument, measured cos) pairs *)
+Definition v_small_table (tbl : list (Z * list float)) (t : list (Z * list (float * float))) : Z :=
+  verdict (forallb2 (fun a b => (fst a =? fst b) && F.flist_eqb (snd a) (map snd (snd b))
+                               && F.flist_eqb (map fst (snd b)) (F.cos_args (fst b))) tbl t) true.
